@@ -292,6 +292,17 @@ func checkDecodeAs(test string, c DecodeCase) error {
 		if r2.Panic != nil {
 			return stats.Failf("C10/reencode/"+e.Name, "%s: decoded without error, but re-encoding the value panics: %v\n%s", what, r2.Panic, r2.Stack)
 		}
+		// a later (hostile) message decoded into the same variable must not reach into this accepted one: the
+		// second message is this input with one bit of every byte of its second half flipped (same shape, other content)
+		if len(in) >= 16 && !needsHint(e) {
+			in2 := append([]byte(nil), in...)
+			for i := len(in2) / 2; i < len(in2); i++ {
+				in2[i] ^= 0x04
+			}
+			if herr := gen.ReuseReceiver(e, in, in2); herr != nil {
+				return stats.Failf("C10/receiver-reuse/"+e.Name, "%s: %v", what, herr)
+			}
+		}
 		switch {
 		case encErr != nil:
 			labels = append(labels, "reencode:error")
